@@ -711,6 +711,8 @@ package evaluator
 //@        || as(result0, *object.Str).Value == decimalOf(as(receiver, *object.Str).Value, as(args[0], *object.Str).Value, ite(len(args) == 1, 2, intOf(args[1]))))
 //@   goal unchanged-or-a-point-and-two-zeros: objType == object.STR_OBJ && result1 == nil && len(args) == 0 ==> istype(result0, *object.Str) && (as(result0, *object.Str).Value == as(receiver, *object.Str).Value
 //@        || as(result0, *object.Str).Value == decimalOf(as(receiver, *object.Str).Value, ".", 2))
+//@   call String#0: bind intText
+//@   return 6: assert integer-receiver-gets-the-separator-and-zeros: objType == object.INT_OBJ ==> as(result0, *object.Str).Value == decimalOf(intText, ite(len(args) == 0, ".", as(args[0], *object.Str).Value), ite(len(args) <= 1, 2, intOf(args[1])))
 //@   return 6: assert integer-text-gets-the-separator-and-zeros: objType == object.STR_OBJ ==> as(result0, *object.Str).Value == decimalOf(as(receiver, *object.Str).Value, ite(len(args) == 0, ".", as(args[0], *object.Str).Value), ite(len(args) <= 1, 2, intOf(args[1])))
 //@   goal wrong-argument-kinds-are-errors-or-the-text-unchanged: result1 == nil && objType == object.STR_OBJ && (len(args) > 2 || (len(args) >= 1 && !istype(args[0], *object.Str)) || (len(args) == 2 && !istype(args[1], *object.Int))) ==> as(result0, *object.Str).Value == as(receiver, *object.Str).Value
 //@   requires receiver != nil && (objType == object.STR_OBJ ==> istype(receiver, *object.Str)) && (objType == object.INT_OBJ ==> istype(receiver, *object.Int))
